@@ -5,7 +5,7 @@ EXTENDS Integers, Sequences, FiniteSets, TLC, Json
 CONSTANTS Devs, NEx
 VARIABLES Requests, Replies, halfclose, sent, atBackend, answered, atClient, dialled, shut, ex, printed
 
-Methods == {"GET", "POST", "PUT", "DELETE", "OPTIONS"}
+Methods == {"GET", "POST", "PUT", "DELETE", "OPTIONS", "HEAD"}    \* (the reply to a HEAD announces a length and has no body)
 Targets == {"/", "/a/b?x=1&y=2", "/%7Euser", "*"}
 HeaderSets == { <<>>, << <<"X-A", "1">> >>, << <<"X-A", "1">>, <<"X-A", "2">> >>, << <<"User-Agent", "verif/1">>, <<"Accept", "*/*">> >>,
                 << <<"Cookie", "a=b; c=d">>, <<"X-Long", "v">> >> }
